@@ -1,4 +1,5 @@
 import CanvasModel.C09
+import CanvasModel.C09.SplitAt
 import CanvasModel.C10
 import CanvasModel.Region
 import CanvasGen.CoreF
@@ -14,6 +15,8 @@ import CanvasGen.GaussLegendreC09
   REVWN delta P <poly> R <poly> PTS …   -> verdict: wn(R, q) = −wn(P, q) for every q off the δ-band (exact)
   QCUTS p0 p1 p2 t1 … tn                -> the n+1 pieces of the quadratic cutting loop (`cutsGen`) as data arrays
   CCUTS p0 p1 p2 p3 t1 … tn             -> the same for a cubic
+  SPLITAT TS t… P <records> O <oracle>  -> `k` then every piece of `SplitAt` as `| data…` (`panic` if the model panics);
+        oracle: per drawing record `s dT cx cy th1 th2 n v1 … vn` (segment length, centre form, inverse values)
 
 records: `M x y`, `L x y`, `Q cx cy x y`, `C c1x c1y c2x c2y x y`, `A rx ry phi large sweep x y`, `Z x y`
 (hex float64; the raw values of the data array, phi in radians).
@@ -103,9 +106,64 @@ def cubeCutsF (r : CubicF) (ts : List Float) : List CubicF × CubicF :=
       (s.2.2.2.2.1, s.2.2.2.2.2.1, s.2.2.2.2.2.2.1, s.2.2.2.2.2.2.2))
     r 0.0 ts
 
+def floatSplitOps : SplitOps Float where
+  zero := 0.0
+  one := 1.0
+  add a b := a + b
+  sub a b := a - b
+  div a b := a / b
+  lt a b := a < b
+  le a b := a ≤ b
+  eq := GenF.Equal
+  interp := GenF.Point.Interpolate
+  quadL q t := let s := GenF.quadraticBezierSplit q.1 q.2.1 q.2.2 t; (s.1, s.2.1, s.2.2.1)
+  quadR q t := let s := GenF.quadraticBezierSplit q.1 q.2.1 q.2.2 t; (s.2.2.2.1, s.2.2.2.2.1, s.2.2.2.2.2)
+  cubeL q t := let s := GenF.cubicBezierSplit q.1 q.2.1 q.2.2.1 q.2.2.2 t; (s.1, s.2.1, s.2.2.1, s.2.2.2.1)
+  cubeR q t :=
+    let s := GenF.cubicBezierSplit q.1 q.2.1 q.2.2.1 q.2.2.2 t
+    (s.2.2.2.2.1, s.2.2.2.2.2.1, s.2.2.2.2.2.2.1, s.2.2.2.2.2.2.2)
+  ellipsePos := C10.ellipsePos
+  angleBetween := C10.angleBetween
+  absSub a b := (a - b).abs
+  gtPi x := x > goPi
+
+def takeFloats : Nat → List String → Option (List Float × List String)
+  | 0, ts => some ([], ts)
+  | n + 1, t :: ts => do
+    let f ← floatOfHex? t
+    let (fs, rest) ← takeFloats n ts
+    pure (f :: fs, rest)
+  | _, [] => none
+
+def parseOracle : Nat → List String → Option (List (SegOracle Float))
+  | _, [] => some []
+  | 0, _ => none
+  | fuel + 1, "s" :: dT :: cx :: cy :: th1 :: th2 :: n :: rest => do
+    let dT ← floatOfHex? dT
+    let cx ← floatOfHex? cx
+    let cy ← floatOfHex? cy
+    let th1 ← floatOfHex? th1
+    let th2 ← floatOfHex? th2
+    let n ← n.toNat?
+    let (vs, rest) ← takeFloats n rest
+    (parseOracle fuel rest).map (⟨dT, vs, cx, cy, th1, th2⟩ :: ·)
+  | _, _ => none
+
+def splitOn (sep : String) (l : List String) : List String × List String :=
+  (l.takeWhile (· != sep), (l.dropWhile (· != sep)).drop 1)
+
 def joinPieces (ps : List String) : String := " | ".intercalate ps
 
 def handle : List String → Option String
+  | "SPLITAT" :: "TS" :: toks => do
+    let (tsT, rest) := splitOn "P" toks
+    let (recT, orT) := splitOn "O" rest
+    let ts ← tsT.mapM floatOfHex?
+    let cs ← parseCmds recT.length recT
+    let os ← parseOracle orT.length orT
+    match splitAt C10.floatGeo floatSplitOps cs ts os with
+    | none => pure "panic"
+    | some ps => pure (ps.foldl (fun acc p => acc ++ " | " ++ showData p) (toString ps.length))
   | "QCUTS" :: a :: b :: c :: d :: e :: f :: ts => do
     let p0 ← C10.pt? a b
     let p1 ← C10.pt? c d
